@@ -141,16 +141,16 @@ Definition same_obj (w w' : world) (u : nat) : Prop :=
   uo_label (w_up w' u) = uo_label (w_up w u) /\ uo_group (w_up w' u) = uo_group (w_up w u) /\
   uo_tracks (w_up w' u) = uo_tracks (w_up w u) /\ uo_pushed (w_up w' u) = uo_pushed (w_up w u).
 
-Lemma settled_frame : forall w w' m u l,
-  core (w_cl w' m) = core (w_cl w m) ->
+Lemma settled_frame_gen : forall w w' m u l,
+  c_req (w_cl w' m) = c_req (w_cl w m) ->
+  get_down (uo_id (w_up w u)) (c_down (w_cl w' m)) = get_down (uo_id (w_up w u)) (c_down (w_cl w m)) ->
   c_queue (w_cl w' m) = c_queue (w_cl w m) ++ l -> Forall (fresh_action w) l ->
   same_obj w w' u ->
-  (forall t, In t (w_timers w) -> In t (w_timers w')) ->
+  (P2 w u -> settled w' m u) ->
   (P3 w m u -> settled w' m u) ->
   settled w m u -> settled w' m u.
 Proof.
-  intros w w' m u l Hcore Hq Hfresh [Eid [Eow [Elab [Egr [Etr Epu]]]]] Htim Hp3 S.
-  destruct (core_fields _ _ Hcore) as [G [_ [_ [_ [R [_ [D _]]]]]]].
+  intros w w' m u l R D Hq Hfresh [Eid [Eow [Elab [Egr [Etr Epu]]]]] Hp2 Hp3 S.
   assert (Hbase : base_req (w_cl w' m) (uo_label (w_up w' u)) = base_req (w_cl w m) (uo_label (w_up w u))).
   { unfold base_req. rewrite R, Elab. reflexivity. }
   assert (Hsel : sel w' m u = sel w m u) by (unfold sel; rewrite Hbase, Etr; reflexivity).
@@ -158,13 +158,30 @@ Proof.
   - left. unfold P1 in *. rewrite Hq, last_push_app, Etr.
     destruct (last_push u l) as [ts|] eqn:E; [|exact A].
     rewrite (last_push_fresh w u l ts Hfresh E). reflexivity.
-  - right. left. destruct B as [B1 [t [B2 B3]]]. split; [congruence|]. exists t. auto.
+  - apply Hp2. exact B.
   - apply Hp3. exact C.
   - right. right. right. split.
     + unfold insync in *. rewrite Hsel, Eid, D. exact D1.
     + intros g id ts r Hin. rewrite Hq in Hin. apply in_app_iff in Hin. rewrite Hbase, Hsel.
       destruct Hin as [Hin|Hin]; [eapply D2; eauto|].
       rewrite Forall_forall in Hfresh. specialize (Hfresh _ Hin). simpl in Hfresh. subst ts. reflexivity.
+Qed.
+
+Lemma settled_frame : forall w w' m u l,
+  c_req (w_cl w' m) = c_req (w_cl w m) -> c_down (w_cl w' m) = c_down (w_cl w m) ->
+  c_queue (w_cl w' m) = c_queue (w_cl w m) ++ l -> Forall (fresh_action w) l ->
+  same_obj w w' u ->
+  (P2 w u -> settled w' m u) ->
+  (P3 w m u -> settled w' m u) ->
+  settled w m u -> settled w' m u.
+Proof.
+  intros w w' m u l R D. apply settled_frame_gen; [exact R|rewrite D; reflexivity].
+Qed.
+
+Lemma P2_frame : forall w w' u,
+  same_obj w w' u -> (forall t, In t (w_timers w) -> In t (w_timers w')) -> P2 w u -> P2 w' u.
+Proof.
+  intros w w' u [_ [_ [_ [_ [_ Epu]]]]] Ht [B1 [t [B2 B3]]]. split; [congruence|]. exists t. auto.
 Qed.
 
 Lemma P3_frame : forall w w' m u,
@@ -305,9 +322,10 @@ Proof.
   assert (Hc : uo_closed (w_up w u) = false) by (eapply closed_back; eauto).
   assert (Hrel : relevant w m u).
   { repeat split; auto; congruence. }
+  destruct (core_fields _ _ Hcore) as [_ [_ [_ [_ [Rq [_ [Dn _]]]]]]].
   apply (settled_frame w (step w o) m u l); auto.
   - repeat split; assumption.
-  - eapply timers_evo; eauto.
+  - intro B. right. left. apply (P2_frame w (step w o) u); [repeat split; assumption|eapply timers_evo; eauto|exact B].
   - (* the requestConns in the publisher's queue *)
     intro C3. set (p := uo_owner (w_up w u)).
     destruct (owner_live w u I Hrange Hu Hc) as [Hp [Hdp Hgp]]. fold p in Hp, Hdp, Hgp.
@@ -449,4 +467,690 @@ Proof.
     destruct (uo_pushed _); [reflexivity|]. autorewrite with sub. reflexivity.
   - apply newobj_same. destruct (Nat.ltb u (w_nup w) && negb (uo_closed (w_up w u))); [|reflexivity].
     destruct (c_group (w_cl w (uo_owner (w_up w u)))); reflexivity.
+Qed.
+
+(* ---- a delayed push fires / OnTrack *)
+
+Lemma relevant_passive_back : forall w w' m u,
+  core (w_cl w' m) = core (w_cl w m) -> w_nup w' = w_nup w ->
+  uo_closed (w_up w' u) = uo_closed (w_up w u) -> uo_owner (w_up w' u) = uo_owner (w_up w u) ->
+  uo_group (w_up w' u) = uo_group (w_up w u) ->
+  relevant w' m u -> relevant w m u.
+Proof.
+  intros w w' m u Hcore Hn Hc Ho Hg [A [B [C [D E]]]].
+  destruct (core_fields _ _ Hcore) as [G [_ [_ [_ [_ [_ [_ [_ Dd]]]]]]]].
+  repeat split; try congruence; lia.
+Qed.
+
+Lemma sync_timer : forall w i m u,
+  Inv w -> in_range w -> SInv m w -> relevant (step w (OpTimer i)) m u -> settled (step w (OpTimer i)) m u.
+Proof.
+  intros w i m u I Hrange S Hrel.
+  destruct (step_fresh w (OpTimer i) m ltac:(discriminate)) as [Hcore [l [Hq Hfresh]]].
+  destruct (core_fields _ _ Hcore) as [G [_ [_ [_ [Rq [_ [Dn _]]]]]]].
+  revert Hrel Hcore Hq G Rq Dn. simpl.
+  destruct (nth_error (w_timers w) i) as [t|] eqn:Et; [|intros; apply S; assumption].
+  assert (Hti : In t (w_timers w)) by (eapply nth_error_In; eauto).
+  destruct (inv_timers _ I t Hti) as [Tlt Tg].
+  set (w0 := set_timers (remove_nth i (w_timers w)) w).
+  unfold fire_timer. change (w_up w0) with (w_up w).
+  destruct (uo_pushed (w_up w (t_up t))) eqn:Ep.
+  - (* somebody had pushed already: only the timer goes away *)
+    intros Hrel Hcore Hq G Rq Dn.
+    assert (Hrel0 : relevant w m u) by exact Hrel.
+    apply (settled_frame w w0 m u l); auto.
+    + repeat split.
+    + intros [B1 [t' [B2 B3]]]. right. left. split; [exact B1|]. exists t'. split; [|exact B3].
+      unfold w0. simpl. eapply in_remove_nth_other; eauto. intro X. subst t'. congruence.
+    + intro C. right. right. left. exact C.
+  - intros Hrel Hcore Hq G Rq Dn.
+    set (w1 := upd_up (t_up t) (fun o => up_set_replace 0 (up_set_pushed true o)) w0) in *.
+    set (a := APush (t_group t) (uo_id (w_up w (t_up t))) (Some (t_up t)) (uo_tracks (w_up w (t_up t)))
+                    (uo_replace (w_up w (t_up t)))) in *.
+    set (cs := others w0 (t_group t) (uo_owner (w_up w (t_up t)))) in *.
+    assert (HU : forall x, w_up (enq_all cs a w1) x =
+                 if Nat.eqb x (t_up t) then up_set_replace 0 (up_set_pushed true (w_up w x)) else w_up w x).
+    { intro x. autorewrite with sub. reflexivity. }
+    assert (Hso : forall x, x <> t_up t -> same_obj w (enq_all cs a w1) x).
+    { intros x Hx. unfold same_obj. rewrite HU. destruct (Nat.eqb_spec x (t_up t)); [contradiction|]. repeat split. }
+    assert (Hrel0 : relevant w m u).
+    { destruct Hrel as [A [B [C [D E]]]]. rewrite HU in B, C, D. autorewrite with sub in A, D, E.
+      destruct (Nat.eqb u (t_up t)); simpl in *; repeat split; auto. }
+    destruct (Nat.eqb_spec u (t_up t)) as [e|ne].
+    + (* the delayed push of u itself: the push is queued at m *)
+      left. unfold P1. rewrite HU, <- e, Nat.eqb_refl. simpl.
+      destruct Hrel0 as [Hu [Hc [Ho [Hg Hd]]]].
+      assert (Hm : In m cs).
+      { unfold cs. apply in_others. change (w_n w0) with (w_n w). change (w_cl w0) with (w_cl w).
+        rewrite <- e. repeat split; auto; [eapply Hrange; eauto|]. rewrite Hg, Tg, e. reflexivity. }
+      rewrite enq_all_c_queue, last_push_app.
+      assert (Hin : In a (repeat a (count_in m cs))).
+      { apply count_in_pos in Hm. destruct (count_in m cs); [congruence|left; reflexivity]. }
+      destruct (last_push u (repeat a (count_in m cs))) as [ts|] eqn:E.
+      * destruct (last_push_in _ _ _ E) as [g0 [id0 [r0 X]]]. apply repeat_spec in X.
+        unfold a in X. injection X as E1 E2 E3 E4 E5. rewrite E4, e. reflexivity.
+      * exfalso. unfold a in Hin, E. rewrite <- e in Hin, E. eapply last_push_some_of_in; [exact Hin|exact E].
+    + apply (settled_frame w (enq_all cs a w1) m u l); auto.
+      * intros [B1 [t' [B2 B3]]]. right. left. split; [rewrite HU; destruct (Nat.eqb_spec u (t_up t)); [contradiction|exact B1]|].
+        exists t'. split; [|exact B3]. autorewrite with sub. unfold w0. simpl.
+        eapply in_remove_nth_other; eauto. intro X. subst t'. congruence.
+      * intro C. right. right. left. destruct (Hso u ne) as [Eid [Eow [_ [Egr _]]]].
+        destruct C as [id' [C1 C2]]. exists id'. rewrite Egr, Eow, Eid. split; [|exact C2].
+        apply in_enq_all_queue. left. exact C1.
+Qed.
+
+Lemma sync_track : forall w x k m u,
+  Inv w -> in_range w -> SInv m w -> relevant (step w (OpTrack x k)) m u -> settled (step w (OpTrack x k)) m u.
+Proof.
+  intros w x k m u I Hrange S Hrel.
+  destruct (step_fresh w (OpTrack x k) m ltac:(discriminate)) as [Hcore [l [Hq Hfresh]]].
+  destruct (core_fields _ _ Hcore) as [G [_ [_ [_ [Rq [_ [Dn _]]]]]]].
+  revert Hrel Hcore Hq G Rq Dn. simpl.
+  destruct (Nat.ltb x (w_nup w) && negb (uo_closed (w_up w x))) eqn:Eg; [|intros; apply S; assumption].
+  apply andb_prop in Eg. destruct Eg as [E1 E2]. apply Nat.ltb_lt in E1. apply negb_true_iff in E2.
+  destruct (inv_alive _ I x E1 E2) as [_ Hgo]. rewrite Hgo.
+  set (g := uo_group (w_up w x)).
+  intros Hrel Hcore Hq G Rq Dn.
+  set (w' := new_timer x g (upd_up x (up_add_track k) w)) in *.
+  assert (HU : forall y, w_up w' y = if Nat.eqb y x then up_set_pushed false (up_add_track k (w_up w y)) else w_up w y).
+  { intro y. unfold w', new_timer. simpl. destruct (Nat.eqb y x); reflexivity. }
+  assert (HT : w_timers w' = w_timers w ++ [mkTimer x g]) by reflexivity.
+  destruct (Nat.eqb_spec u x) as [e|ne].
+  - (* a track of u arrives: its delayed push is pending *)
+    right. left. split.
+    + rewrite HU, e, Nat.eqb_refl. reflexivity.
+    + exists (mkTimer x g). split; [rewrite HT; apply in_app_iff; right; left; reflexivity|simpl; auto].
+  - assert (Hso : same_obj w w' u).
+    { unfold same_obj. rewrite HU. destruct (Nat.eqb_spec u x); [contradiction|]. repeat split. }
+    assert (Hrel0 : relevant w m u).
+    { destruct Hrel as [A [B [C [D E]]]]. rewrite HU in B, C, D.
+      destruct (Nat.eqb_spec u x); [contradiction|]. repeat split; auto. }
+    apply (settled_frame w w' m u l); auto.
+    + intro B. right. left. apply (P2_frame w w' u); auto. intros t Ht. rewrite HT. apply in_app_iff. left. exact Ht.
+    + intro C. right. right. left. destruct Hso as [Eid [Eow [_ [Egr _]]]].
+      destruct C as [id' [C1 C2]]. exists id'. rewrite Egr, Eow, Eid. split; [exact C1|exact C2].
+Qed.
+
+(* ---- the subscriber's own message *)
+
+Definition plain_msg (msg : msg) : Prop :=
+  match msg with
+  | MOffer _ _ _ _ | MClose _ | MKick _ | MPerm _ _ => True
+  | _ => False
+  end.
+
+Lemma own_plain_msg : forall w m msg,
+  plain_msg msg -> snd (handle_msg m msg w) = false ->
+  let w' := fst (handle_msg m msg w) in
+  c_req (w_cl w' m) = c_req (w_cl w m) /\ c_down (w_cl w' m) = c_down (w_cl w m) /\
+  c_group (w_cl w' m) = c_group (w_cl w m) /\
+  exists l, c_queue (w_cl w' m) = c_queue (w_cl w m) ++ l /\ Forall (fresh_action w) l.
+Proof.
+  intros w m msg Hp He.
+  assert (K : forall w1, keeps m w w1 ->
+            c_req (w_cl w1 m) = c_req (w_cl w m) /\ c_down (w_cl w1 m) = c_down (w_cl w m) /\
+            c_group (w_cl w1 m) = c_group (w_cl w m) /\
+            exists l, c_queue (w_cl w1 m) = c_queue (w_cl w m) ++ l /\ Forall (fresh_action w) l).
+  { intros w1 [A [B [C [D E]]]]. repeat split; auto. exists []. rewrite app_nil_r. split; [exact B|constructor]. }
+  assert (Kenq : forall dest a, fresh_action w a ->
+            c_req (w_cl (enq dest a w) m) = c_req (w_cl w m) /\ c_down (w_cl (enq dest a w) m) = c_down (w_cl w m) /\
+            c_group (w_cl (enq dest a w) m) = c_group (w_cl w m) /\
+            exists l, c_queue (w_cl (enq dest a w) m) = c_queue (w_cl w m) ++ l /\ Forall (fresh_action w) l).
+  { intros dest a Ha. autorewrite with sub. repeat split. eexists. split; [reflexivity|].
+    destruct (Nat.eqb m dest); [constructor; [exact Ha|constructor]|constructor]. }
+  destruct msg as [g user pres op0|g|req|id req|id label replace s|id|id|id ok|dest|dest give];
+    simpl in Hp; try contradiction; cbv beta iota zeta delta [handle_msg] in *.
+  - destruct (Nat.eqb id 0); cbn [fst snd] in *; [discriminate|].
+    destruct (c_present (w_cl w m)); cbn [fst snd] in *; [apply K; apply keeps_got_offer|].
+    apply K. eapply keeps_trans; [|apply keeps_send]. eapply keeps_trans; [|apply keeps_send].
+    destruct (Nat.eqb replace 0); [apply keeps_refl|apply keeps_del_up_conn'].
+  - destruct (Nat.eqb id 0); cbn [fst snd] in *; [discriminate|]. apply K. apply keeps_del_up_conn'.
+  - destruct (c_group (w_cl w m)); cbn [fst snd] in *; [|apply K; apply keeps_send].
+    destruct (c_op (w_cl w m) && member_of w _ dest); cbn [fst snd] in *; [|apply K; apply keeps_send].
+    apply Kenq. exact I.
+  - destruct (c_group (w_cl w m)); cbn [fst snd] in *; [|apply K; apply keeps_send].
+    destruct (c_op (w_cl w m) && member_of w _ dest); cbn [fst snd] in *; [|apply K; apply keeps_send].
+    apply Kenq. exact I.
+Qed.
+
+Lemma step_own_msg_noerr : forall w m msg,
+  c_dead (w_cl (step w (OpMsg m msg)) m) = false ->
+  step w (OpMsg m msg) = w \/
+  (m < w_n w /\ c_dead (w_cl w m) = false /\ snd (handle_msg m msg w) = false /\
+   step w (OpMsg m msg) = fst (handle_msg m msg w)).
+Proof.
+  intros w m msg Hlive. simpl in *.
+  destruct (Nat.ltb m (w_n w) && negb (c_dead (w_cl w m))) eqn:Eg; [|left; reflexivity].
+  apply andb_prop in Eg. destruct Eg as [E1 E2]. apply Nat.ltb_lt in E1. apply negb_true_iff in E2.
+  right. destruct (handle_msg m msg w) as [w' e]. unfold finish in *. simpl in *.
+  destruct e; [rewrite error_close_dead in Hlive; discriminate|auto].
+Qed.
+
+Lemma base_req_nil : forall c l, c_req c = [] -> base_req c l = [].
+Proof. intros c l H. unfold base_req. rewrite H. reflexivity. Qed.
+
+Lemma sync_own_msg : forall w m msg u,
+  Inv w -> in_range w -> ok_op w (OpMsg m msg) -> quiet_op m (OpMsg m msg) ->
+  SInv m w -> u < w_nup w ->
+  relevant (step w (OpMsg m msg)) m u -> settled (step w (OpMsg m msg)) m u.
+Proof.
+  intros w m msg u I Hrange Hok Hquiet S Hu Hrel.
+  pose proof (Inv_step w _ I Hok) as I'. pose proof (in_range_step w _ I Hok Hrange) as R'.
+  pose proof (step_evo w (OpMsg m msg) m I Hok eq_refl) as HE.
+  pose proof (same_obj_evo m w _ u HE Hu) as Hso.
+  destruct Hrel as [Hu' [Hc' [Ho' [Hg' Hd']]]].
+  assert (Hc : uo_closed (w_up w u) = false) by (eapply closed_back; eauto).
+  destruct (step_own_msg_noerr w m msg Hd') as [Esame|[Hm [Hd [Hne Estep]]]].
+  { rewrite Esame in *. apply S. repeat split; auto. }
+  destruct Hso as [Eid [Eow [Elab [Egr [Etr Epu]]]]].
+  set (p := uo_owner (w_up w u)).
+  assert (Hpm : p <> m) by (unfold p; congruence).
+  assert (Pp : passive p w (step w (OpMsg m msg))) by (apply step_passive; simpl; congruence).
+  destruct Pp as [Hcorep [lp Hqp]].
+  assert (Hp3 : P3 w m u -> P3 (step w (OpMsg m msg)) m u).
+  { apply P3_frame; [repeat split; assumption|]. intros a Hin. fold p. rewrite Hqp. apply in_app_iff. left. exact Hin. }
+  assert (Hp2 : P2 w u -> P2 (step w (OpMsg m msg)) u).
+  { apply P2_frame; [repeat split; assumption|]. eapply timers_evo; eauto. }
+  destruct msg as [g user pres op0|g|req|id req|id label replace s|id|id|id ok|dest|dest give].
+  - (* join: no request yet, nothing held *)
+    rewrite Estep in *. cbv beta iota zeta delta [handle_msg] in *.
+    destruct (c_group (w_cl w m)) eqn:Hg; cbn [fst snd] in *; [discriminate|].
+    destruct (inv_nogroup _ I m Hg) as [_ [Dn [_ Rq]]].
+    right. right. right.
+    assert (R1 : c_req (w_cl (upd_cl m (set_joined g user pres op0) w) m) = []) by (rewrite upd_cl_same; exact Rq).
+    assert (D1 : c_down (w_cl (upd_cl m (set_joined g user pres op0) w) m) = []) by (rewrite upd_cl_same; exact Dn).
+    split.
+    + unfold insync, sel. rewrite D1, (base_req_nil _ _ R1). reflexivity.
+    + intros g0 id0 ts r0 _. unfold sel. rewrite (base_req_nil _ _ R1). reflexivity.
+  - (* leave *)
+    exfalso. rewrite Estep in Hg'. cbv beta iota zeta delta [handle_msg] in *.
+    destruct (in_group g (w_cl w m)); cbn [fst snd] in *; [|discriminate].
+    rewrite leave_group_group in Hg'. discriminate.
+  - (* request: every publisher is asked to push again *)
+    right. right. left. rewrite Estep in *. cbv beta iota zeta delta [handle_msg] in *.
+    destruct (c_group (w_cl w m)) as [g|] eqn:Hg; cbn [fst snd] in *; [|discriminate].
+    set (w1 := upd_cl m (set_req req) w) in *.
+    assert (Gm : g = uo_group (w_up w u)).
+    { revert Hg'. autorewrite with sub. unfold w1. rewrite upd_cl_same. simpl. rewrite Hg.
+      change (w_up w1) with (w_up w). intro X. inversion X. reflexivity. }
+    destruct (owner_live w u I Hrange Hu Hc) as [Hp [Hdp Hgp]]. fold p in Hp, Hdp, Hgp.
+    exists 0. split; [|left; reflexivity].
+    autorewrite with sub. change (w_up w1) with (w_up w). fold p.
+    apply in_enq_all_queue. right. rewrite Gm. split; [reflexivity|].
+    apply in_others. unfold w1. change (w_n (upd_cl m (set_req req) w)) with (w_n w).
+    repeat split; auto. unfold upd_cl. simpl. destruct (Nat.eqb_spec p m); [contradiction|exact Hgp].
+  - exfalso. simpl in Hquiet. congruence.
+  - destruct (own_plain_msg w m (MOffer id label replace s) Logic.I Hne) as [Rq [Dn [Gq [l [Hq Hf]]]]].
+    rewrite Estep in *. apply (settled_frame w _ m u l); auto; [repeat split; assumption| | |apply S; repeat split; auto; congruence];
+      intro X; [right; left; apply Hp2; exact X|right; right; left; apply Hp3; exact X].
+  - destruct (own_plain_msg w m (MClose id) Logic.I Hne) as [Rq [Dn [Gq [l [Hq Hf]]]]].
+    rewrite Estep in *. apply (settled_frame w _ m u l); auto; [repeat split; assumption| | |apply S; repeat split; auto; congruence];
+      intro X; [right; left; apply Hp2; exact X|right; right; left; apply Hp3; exact X].
+  - exfalso. simpl in Hquiet. congruence.
+  - exfalso. simpl in Hquiet. congruence.
+  - destruct (own_plain_msg w m (MKick dest) Logic.I Hne) as [Rq [Dn [Gq [l [Hq Hf]]]]].
+    rewrite Estep in *. apply (settled_frame w _ m u l); auto; [repeat split; assumption| | |apply S; repeat split; auto; congruence];
+      intro X; [right; left; apply Hp2; exact X|right; right; left; apply Hp3; exact X].
+  - destruct (own_plain_msg w m (MPerm dest give) Logic.I Hne) as [Rq [Dn [Gq [l [Hq Hf]]]]].
+    rewrite Estep in *. apply (settled_frame w _ m u l); auto; [repeat split; assumption| | |apply S; repeat split; auto; congruence];
+      intro X; [right; left; apply Hp2; exact X|right; right; left; apply Hp3; exact X].
+Qed.
+
+(* ---- the subscriber serves its own queue *)
+
+(* pushDownConn leaves the other down streams and the request map alone *)
+Lemma push_frame : forall m id up ts r w k,
+  k <> id -> (r <> 0 -> k <> r) -> (forall u, up = Some u -> k <> uo_id (w_up w u)) ->
+  let w' := fst (push_down_conn m id up ts r w) in
+  get_down k (c_down (w_cl w' m)) = get_down k (c_down (w_cl w m)) /\
+  c_req (w_cl w' m) = c_req (w_cl w m).
+Proof.
+  intros m id up ts r w k Hid Hr Hu. unfold push_down_conn.
+  set (w1 := if Nat.eqb r 0 then w else del_down m r w).
+  set (good := fun w' : world =>
+        get_down k (c_down (w_cl w' m)) = get_down k (c_down (w_cl w m)) /\
+        c_req (w_cl w' m) = c_req (w_cl w m)).
+  assert (Good1 : good w1).
+  { unfold good, w1. destruct (Nat.eqb_spec r 0); [auto|]. autorewrite with sub. rewrite Nat.eqb_refl.
+    split; [|reflexivity]. apply get_down_remove_other. auto. }
+  assert (Hclose : forall w' i, k <> i -> good w' -> good (close_down_conn m i false w')).
+  { intros w' i Hi [A B]. unfold good, close_down_conn. autorewrite with sub. rewrite Nat.eqb_refl.
+    split; [|exact B]. rewrite get_down_remove_other; auto. }
+  assert (Hdef : forall w', good w' -> good (if Nat.eqb r 0 then w' else close_down_conn m r false w')).
+  { intros w' G. destruct (Nat.eqb_spec r 0); [exact G|]. apply Hclose; auto. }
+  assert (Hset : forall w' d, k <> d_id d -> good w' -> good (set_down_entry m d w')).
+  { intros w' d Hd [A B]. unfold good. autorewrite with sub. rewrite Nat.eqb_refl.
+    split; [|exact B]. rewrite get_down_replace_other; auto. }
+  assert (Hneg : forall w' d r0, k <> d_id d -> good w' -> good (negotiate m d r0 w')).
+  { intros w' d r0 Hd [A B]. unfold good.
+    destruct (negotiate_own m d r0 w') as [_ [_ [_ [d2 [N1 [N2 N3]]]]]]. rewrite N3.
+    split.
+    - rewrite get_down_replace_other; [exact A|congruence].
+    - unfold negotiate. destruct (d_havelocal d); autorewrite with sub; exact B. }
+  match goal with |- context [match fst ?s with _ => _ end] => destruct (fst s) as [|i0 sel0] end.
+  - cbn [fst]. apply Hdef. apply Hclose; auto.
+  - destruct up as [u|]; [|cbn [fst]; apply Hdef; apply Hclose; auto].
+    specialize (Hu u eq_refl).
+    assert (U1 : w_up w1 = w_up w) by (unfold w1; destruct (Nat.eqb r 0); reflexivity).
+    unfold add_down_conn. rewrite U1.
+    destruct (lookup (uo_id (w_up w u)) (c_up (w_cl w1 m))); [cbn [fst]; apply Hdef; exact Good1|].
+    destruct (get_down (uo_id (w_up w u)) (c_down (w_cl w1 m))) as [d0|] eqn:Eg.
+    + rewrite Eg. destruct (replace_tracks d0 _ _) as [changed d'] eqn:Er.
+      destruct (replace_tracks_same _ _ _ _ _ Er) as [R1 [R2 R3]].
+      destruct (get_down_in _ _ _ Eg) as [_ Hid0].
+      assert (Hk : k <> d_id d') by congruence.
+      destruct changed; cbn [fst]; [apply Hneg; auto|apply Hdef; apply Hset; auto].
+    + destruct (uo_closed (w_up w u)); [cbn [fst]; apply Hdef; exact Good1|].
+      set (dn := mkDown (uo_id (w_up w u)) u None [] false false false).
+      set (w2 := upd_cl m (fun c => set_down (c_down c ++ [dn]) c) w1).
+      assert (Good2 : good w2).
+      { destruct Good1 as [A B]. unfold good, w2. rewrite upd_cl_same. simpl. split; [|exact B].
+        rewrite get_down_app, A. destruct (get_down k (c_down (w_cl w m))); [reflexivity|].
+        simpl. destruct (Nat.eqb_spec (uo_id (w_up w u)) k); [congruence|reflexivity]. }
+      assert (Eg2 : get_down (uo_id (w_up w u)) (c_down (w_cl w2 m)) = Some dn).
+      { unfold w2. rewrite upd_cl_same. simpl. rewrite get_down_app, Eg. simpl. rewrite Nat.eqb_refl. reflexivity. }
+      rewrite Eg2. destruct (replace_tracks dn _ _) as [changed d'] eqn:Er.
+      destruct (replace_tracks_same _ _ _ _ _ Er) as [R1 [R2 R3]].
+      assert (Hk : k <> d_id d') by (rewrite R2; simpl; auto).
+      destruct changed; cbn [fst]; [apply Hneg; auto|apply Hdef; apply Hset; auto].
+Qed.
+
+(* dropping the head of the queue when it is not a push of u *)
+Lemma settled_pop : forall w m u a q,
+  c_queue (w_cl w m) = a :: q -> push_of u a = None -> uo_owner (w_up w u) <> m ->
+  settled w m u -> settled (upd_cl m (set_queue q) w) m u.
+Proof.
+  intros w m u a q Eq Ha Hom S.
+  set (w0 := upd_cl m (set_queue q) w).
+  assert (F : c_req (w_cl w0 m) = c_req (w_cl w m) /\ c_down (w_cl w0 m) = c_down (w_cl w m) /\
+              c_queue (w_cl w0 m) = q).
+  { unfold w0. rewrite upd_cl_same. repeat split. }
+  destruct F as [R [D Q]].
+  assert (Hsel : sel w0 m u = sel w m u) by (unfold sel, base_req; rewrite R; reflexivity).
+  destruct S as [A|[B|[C|[D1 D2]]]].
+  - left. unfold P1 in *. rewrite Q. rewrite Eq in A. simpl in A. rewrite Ha in A.
+    destruct (last_push u q); exact A.
+  - right. left. exact B.
+  - right. right. left. destruct C as [id' [C1 C2]]. exists id'. split; [|exact C2].
+    change (w_up w0) with (w_up w). unfold w0, upd_cl. simpl.
+    destruct (Nat.eqb_spec (uo_owner (w_up w u)) m); [contradiction|exact C1].
+  - right. right. right. split.
+    + unfold insync in *. rewrite Hsel, D. exact D1.
+    + intros g id ts r Hin. rewrite Q in Hin. unfold base_req. rewrite R. fold (base_req (w_cl w m) (uo_label (w_up w u))).
+      rewrite Hsel. apply (D2 g id ts r). rewrite Eq. right. exact Hin.
+Qed.
+
+Lemma step_own_pump_noerr : forall w m a q,
+  c_queue (w_cl w m) = a :: q -> m < w_n w -> c_dead (w_cl w m) = false ->
+  c_dead (w_cl (step w (OpPump m)) m) = false ->
+  snd (handle_action m a (upd_cl m (set_queue q) w)) = false /\
+  step w (OpPump m) = fst (handle_action m a (upd_cl m (set_queue q) w)).
+Proof.
+  intros w m a q Eq Hm Hd Hlive. simpl in *.
+  assert (E : Nat.ltb m (w_n w) && negb (c_dead (w_cl w m)) = true).
+  { apply andb_true_intro. split; [apply Nat.ltb_lt; exact Hm|rewrite Hd; reflexivity]. }
+  rewrite E, Eq in *.
+  destruct (handle_action m a (upd_cl m (set_queue q) w)) as [w' e]. unfold finish in *. cbn [fst snd] in *.
+  destruct e; [rewrite error_close_dead in Hlive; discriminate|auto].
+Qed.
+
+(* actions other than a push: the actor's request and down streams stay *)
+Lemma own_plain_action : forall w0 m a,
+  (forall g id up ts r, a <> APush g id up ts r) ->
+  let w' := fst (handle_action m a w0) in
+  c_req (w_cl w' m) = c_req (w_cl w0 m) /\ c_down (w_cl w' m) = c_down (w_cl w0 m) /\
+  exists l, c_queue (w_cl w' m) = c_queue (w_cl w0 m) ++ l /\ Forall (fresh_action w0) l.
+Proof.
+  intros w0 m a Hna.
+  assert (K : forall w1, keeps m w0 w1 ->
+            c_req (w_cl w1 m) = c_req (w_cl w0 m) /\ c_down (w_cl w1 m) = c_down (w_cl w0 m) /\
+            exists l, c_queue (w_cl w1 m) = c_queue (w_cl w0 m) ++ l /\ Forall (fresh_action w0) l).
+  { intros w1 [A [B [C [D E]]]]. repeat split; auto. exists []. rewrite app_nil_r. split; [exact B|constructor]. }
+  destruct a as [g id up ts r|g t id|g give| |]; cbv beta iota zeta delta [handle_action].
+  - exfalso. eapply Hna; reflexivity.
+  - destruct (in_group g (w_cl w0 m)); cbn [fst]; [|apply K; apply keeps_refl].
+    fold (reqconns_fold g t id (c_up (w_cl w0 m)) w0).
+    assert (Pf : passiveP (fresh_action w0) m w0 (reqconns_fold g t id (c_up (w_cl w0 m)) w0)).
+    { apply (passiveP_reqconns_fold (fresh_action w0) w0); [|reflexivity]. intros. simpl. reflexivity. }
+    destruct Pf as [Hc [l [Hq Hf]]]. destruct (core_fields _ _ Hc) as [_ [_ [_ [_ [R [_ [D _]]]]]]].
+    repeat split; auto. exists l. auto.
+  - destruct (in_group g (w_cl w0 m)); cbn [fst]; [|apply K; apply keeps_refl].
+    autorewrite with sub. rewrite Nat.eqb_refl, !upd_cl_same. cbn [c_req c_down c_queue set_present].
+    repeat split. exists [APermsChanged]. split; [reflexivity|constructor; [exact I|constructor]].
+  - destruct (c_group (w_cl w0 m)); cbn [fst]; [|apply K; apply keeps_refl].
+    destruct (c_present (w_cl w0 m)); cbn [fst]; [apply K; apply keeps_refl|].
+    apply K. apply keeps_unpresent_fold.
+  - apply K. apply keeps_refl.
+Qed.
+
+Lemma push_req_base : forall w m u r, req_none m w ->
+  push_req w m u r = base_req (w_cl w m) (uo_label (w_up w u)).
+Proof.
+  intros w m u r Hn. unfold push_req.
+  destruct (get_down _ (c_down (w_cl w m))) as [d|] eqn:E; [|reflexivity].
+  destruct (get_down_in _ _ _ E) as [Hin _]. rewrite (Hn d Hin). reflexivity.
+Qed.
+
+Lemma sync_own_pump : forall w m u,
+  Inv w -> in_range w -> SInv m w -> req_none m w -> u < w_nup w ->
+  relevant (step w (OpPump m)) m u -> settled (step w (OpPump m)) m u.
+Proof.
+  intros w m u I Hrange S Hrn Hu Hrel.
+  assert (Hok : ok_op w (OpPump m)) by exact Logic.I.
+  pose proof (Inv_step w _ I Hok) as I'.
+  destruct Hrel as [Hu' [Hc' [Ho' [Hg' Hd']]]].
+  destruct (Nat.ltb m (w_n w) && negb (c_dead (w_cl w m))) eqn:Eg.
+  2:{ rewrite (step_noop w (OpPump m) m eq_refl Eg) in *. apply S. repeat split; auto. }
+  apply andb_prop in Eg. destruct Eg as [E1 E2]. apply Nat.ltb_lt in E1. apply negb_true_iff in E2.
+  destruct (c_queue (w_cl w m)) as [|a q] eqn:Eq.
+  { assert (E : step w (OpPump m) = w).
+    { simpl. rewrite Eq. destruct (Nat.ltb m (w_n w) && negb (c_dead (w_cl w m))); reflexivity. }
+    rewrite E in *. apply S. repeat split; auto. }
+  destruct (step_own_pump_noerr w m a q Eq E1 E2 Hd') as [Hne Estep].
+  pose proof (step_evo w (OpPump m) m I Hok eq_refl) as HE.
+  pose proof (same_obj_evo m w _ u HE Hu) as Hso.
+  assert (Hc : uo_closed (w_up w u) = false) by (eapply closed_back; eauto).
+  destruct (pump_own w m a q I Eq E1 E2 Hd') as [_ [Hgm _]].
+  destruct Hso as [Eid [Eow [Elab [Egr [Etr Epu]]]]].
+  assert (Hom : uo_owner (w_up w u) <> m) by congruence.
+  assert (Hrel0 : relevant w m u) by (repeat split; auto; congruence).
+  pose proof (S u Hrel0) as Sw.
+  set (p := uo_owner (w_up w u)).
+  assert (Pp : passive p w (step w (OpPump m))) by (apply step_passive; simpl; unfold p; congruence).
+  destruct Pp as [_ [lp Hqp]].
+  assert (Hsame : same_obj w (step w (OpPump m)) u) by (repeat split; assumption).
+  assert (Hp3 : P3 w m u -> P3 (step w (OpPump m)) m u).
+  { apply P3_frame; [exact Hsame|]. intros x Hin. fold p. rewrite Hqp. apply in_app_iff. left. exact Hin. }
+  assert (Hp2 : P2 w u -> P2 (step w (OpPump m)) u).
+  { apply P2_frame; [exact Hsame|]. eapply timers_evo; eauto. }
+  set (w0 := upd_cl m (set_queue q) w) in *.
+  assert (I0 : Inv w0).
+  { apply Inv_pop; [exact I|]. intros x Hx. rewrite Eq. right. exact Hx. }
+  assert (Ha0 : action_ok w0 m a).
+  { eapply (action_ok_same_heap w); [reflexivity|reflexivity|].
+    apply (inv_queue _ I). rewrite Eq. left. reflexivity. }
+  assert (F0 : c_queue (w_cl w0 m) = q /\ c_group (w_cl w0 m) = c_group (w_cl w m) /\
+               c_down (w_cl w0 m) = c_down (w_cl w m) /\ c_req (w_cl w0 m) = c_req (w_cl w m)).
+  { unfold w0. rewrite upd_cl_same. repeat split. }
+  destruct F0 as [Q0 [G0 [D0 R0]]].
+  assert (Hgw : c_group (w_cl w m) = Some (uo_group (w_up w u))) by (destruct Hrel0 as [_ [_ [_ [X _]]]]; exact X).
+  (* the head is not a push of u: drop it, then nothing relevant changes *)
+  assert (Plain : forall l,
+            push_of u a = None ->
+            c_req (w_cl (step w (OpPump m)) m) = c_req (w_cl w0 m) ->
+            get_down (uo_id (w_up w u)) (c_down (w_cl (step w (OpPump m)) m)) =
+              get_down (uo_id (w_up w u)) (c_down (w_cl w0 m)) ->
+            c_queue (w_cl (step w (OpPump m)) m) = c_queue (w_cl w0 m) ++ l -> Forall (fresh_action w0) l ->
+            settled (step w (OpPump m)) m u).
+  { intros l Hpa R D Hq Hf.
+    pose proof (settled_pop w m u a q Eq Hpa Hom Sw) as S0. fold w0 in S0.
+    apply (settled_frame_gen w0 _ m u l); auto.
+    - intro B. right. left. apply Hp2. exact B.
+    - intro C. right. right. left. apply Hp3. destruct C as [id' [C1 C2]]. exists id'. split; [|exact C2].
+      revert C1. change (w_up w0) with (w_up w). unfold w0, upd_cl. simpl.
+      destruct (Nat.eqb_spec (uo_owner (w_up w u)) m); [contradiction|auto]. }
+  destruct a as [g id up ts r|g t id|g give| |].
+  - (* a push *)
+    rewrite Estep in *. cbv beta iota zeta delta [handle_action] in *.
+    destruct (in_group g (w_cl w0 m)) eqn:Hig; cbn [fst snd] in *.
+    2:{ (* wrong group: dropped *)
+        apply (Plain []); auto; [|rewrite app_nil_r; reflexivity].
+        destruct up as [v|]; [|reflexivity]. simpl. destruct (Nat.eqb_spec v u); [|reflexivity].
+        exfalso. subst v. simpl in Ha0. destruct Ha0 as [_ [_ [A3 _]]]. change (w_up w0) with (w_up w) in A3.
+        assert (X : in_group g (w_cl w0 m) = true) by (apply in_group_eq; rewrite G0, Hgw, A3; reflexivity).
+        congruence. }
+    apply in_group_eq in Hig.
+    destruct (push_own m id up ts r w0 g I0 Ha0 Hig) as [Qp [Gp [Dp _]]].
+    destruct (push_down_conn_heap m id up ts r w0) as [Np [Up [Tp _]]].
+    destruct (Nat.eq_dec (match up with Some v => v | None => w_nup w end) u) as [e|ne].
+    + (* the push of u itself *)
+      destruct up as [v|]; [|lia]. subst v.
+      simpl in Ha0. destruct Ha0 as [A1 [A2 [A3 [A4 [A5 A6]]]]]. change (w_up w0) with (w_up w) in *.
+      assert (Hrn0 : req_none m w0) by (intros d Hd; apply Hrn; rewrite <- D0; exact Hd).
+      destruct (push_exact m id u ts r w0 g I0 (conj A1 (conj A2 (conj A3 (conj A4 (conj A5 A6))))) Hig) as [_ Hex].
+      rewrite (push_req_base w0 m u r Hrn0) in Hex. change (w_up w0) with (w_up w) in Hex.
+      set (w' := fst (push_down_conn m id (Some u) ts r w0)) in *.
+      assert (Rq' : c_req (w_cl w' m) = c_req (w_cl w m)).
+      { destruct (push_frame m id (Some u) ts r w0 (1 + (id + r + uo_id (w_up w u)))) as [_ X];
+          [lia|intros; lia|intros v Ev; inversion Ev; change (w_up w0) with (w_up w); lia|].
+        fold w' in X. rewrite X. exact R0. }
+      assert (Hbase : base_req (w_cl w' m) (uo_label (w_up w' u)) = base_req (w_cl w m) (uo_label (w_up w u))).
+      { unfold base_req. rewrite Rq', Up. reflexivity. }
+      assert (Hb0 : base_req (w_cl w0 m) (uo_label (w_up w u)) = base_req (w_cl w m) (uo_label (w_up w u))).
+      { unfold base_req. rewrite R0. reflexivity. }
+      assert (Htr : uo_tracks (w_up w' u) = uo_tracks (w_up w u)) by (rewrite Up; reflexivity).
+      assert (Hselw : sel w' m u = sel w m u) by (unfold sel; rewrite Hbase, Htr; reflexivity).
+      (* if ts is as good as the current tracks, the result is in sync *)
+      assert (Hsync : requested_tracks (base_req (w_cl w m) (uo_label (w_up w u))) ts = sel w m u ->
+                      insync w' m u).
+      { intro Hts. unfold insync. rewrite Hselw, Up. change (w_up w0) with (w_up w).
+        rewrite Hb0, Hts in Hex.
+        destruct (get_down (uo_id (w_up w u)) (c_down (w_cl w' m))) as [d|].
+        - exact Hex.
+        - destruct Hex as [X|X]; [exact X|congruence]. }
+      destruct Sw as [A|[B|[C|[D1 D2]]]].
+      * unfold P1 in A. rewrite Eq in A. simpl in A. rewrite Nat.eqb_refl in A.
+        destruct (last_push u q) as [ts'|] eqn:El.
+        -- left. unfold P1. rewrite Qp, Q0, El, Htr. exact A.
+        -- inversion A. subst ts. right. right. right. split.
+           ++ apply Hsync. reflexivity.
+           ++ intros g0 id0 ts0 r0 Hin. rewrite Qp, Q0 in Hin. exfalso. eapply last_push_none; eauto.
+      * right. left. apply Hp2. exact B.
+      * right. right. left. apply Hp3. exact C.
+      * right. right. right. split.
+        -- apply Hsync. apply (D2 g id ts r). rewrite Eq. left. reflexivity.
+        -- intros g0 id0 ts0 r0 Hin. rewrite Qp, Q0 in Hin. rewrite Hbase, Hselw.
+           apply (D2 g0 id0 ts0 r0). rewrite Eq. right. exact Hin.
+    + (* a push of another stream, or a nil push *)
+      assert (Hpa : push_of u (APush g id up ts r) = None).
+      { destruct up as [v|]; [|reflexivity]. simpl. destruct (Nat.eqb_spec v u); [congruence|reflexivity]. }
+      assert (Hk : uo_id (w_up w u) <> id /\ (r <> 0 -> uo_id (w_up w u) <> r) /\
+                   (forall v, up = Some v -> uo_id (w_up w u) <> uo_id (w_up w0 v))).
+      { change (w_up w0) with (w_up w). simpl in Ha0. destruct up as [v|].
+        - destruct Ha0 as [A1 [A2 [A3 [A4 [A5 A6]]]]]. change (w_up w0) with (w_up w) in *.
+          assert (Hvu : uo_id (w_up w u) <> uo_id (w_up w v)).
+          { intro X. apply ne. symmetry. apply (inv_ids _ I); auto. }
+          split; [congruence|]. split.
+          + intros Hr X. destruct (A6 Hr) as [x [Hx [Hxid Hxc]]]. change (w_up w0) with (w_up w) in *.
+            change (w_nup w0) with (w_nup w) in Hx.
+            assert (x = u) by (apply (inv_ids _ I); auto; congruence). subst x. congruence.
+          + intros v0 Ev. inversion Ev. subst v0. exact Hvu.
+        - destruct Ha0 as [A1 A2]. split; [|split].
+          + intro X. destruct A1 as [x [Hx [Hxid Hxc]]]. change (w_up w0) with (w_up w) in *.
+            change (w_nup w0) with (w_nup w) in Hx.
+            assert (x = u) by (apply (inv_ids _ I); auto; congruence). subst x. congruence.
+          + intros Hr X. destruct (A2 Hr) as [x [Hx [Hxid Hxc]]]. change (w_up w0) with (w_up w) in *.
+            change (w_nup w0) with (w_nup w) in Hx.
+            assert (x = u) by (apply (inv_ids _ I); auto; congruence). subst x. congruence.
+          + intros v0 Ev. discriminate. }
+      destruct Hk as [K1 [K2 K3]].
+      destruct (push_frame m id up ts r w0 (uo_id (w_up w u)) K1 K2 K3) as [Fd Fr].
+      apply (Plain []); auto; [rewrite app_nil_r; exact Qp].
+  - (* requestConns: m serves another client's request *)
+    rewrite Estep in *.
+    destruct (own_plain_action w0 m (AReqConns g t id) ltac:(discriminate)) as [R [D [l [Hq Hf]]]].
+    apply (Plain l); auto. rewrite D. reflexivity.
+  - rewrite Estep in *.
+    destruct (own_plain_action w0 m (AChangePerm g give) ltac:(discriminate)) as [R [D [l [Hq Hf]]]].
+    apply (Plain l); auto. rewrite D. reflexivity.
+  - rewrite Estep in *.
+    destruct (own_plain_action w0 m APermsChanged ltac:(discriminate)) as [R [D [l [Hq Hf]]]].
+    apply (Plain l); auto. rewrite D. reflexivity.
+  - simpl in Hne. discriminate.
+Qed.
+
+(* ---- the per-stream request stays nil for a subscriber that sends no requestStream *)
+
+Lemma negotiate_downs_req : forall m d r w x,
+  In x (c_down (w_cl (negotiate m d r w) m)) -> In x (c_down (w_cl w m)) \/ d_req x = d_req d.
+Proof.
+  intros m d r w x. unfold negotiate. destruct (d_havelocal d); autorewrite with sub; rewrite Nat.eqb_refl; intro H;
+    apply in_replace_down in H; destruct H as [->|[[H _]|[H _]]]; auto.
+Qed.
+
+Lemma push_req_none : forall m id up ts r w,
+  req_none m w -> req_none m (fst (push_down_conn m id up ts r w)).
+Proof.
+  intros m id up ts r w Hn. unfold push_down_conn.
+  set (w1 := if Nat.eqb r 0 then w else del_down m r w).
+  assert (N1 : req_none m w1).
+  { unfold w1. destruct (Nat.eqb r 0); [exact Hn|]. intros d Hd. autorewrite with sub in Hd.
+    rewrite Nat.eqb_refl in Hd. apply in_remove_down in Hd. apply Hn. tauto. }
+  assert (Hclose : forall w' i, req_none m w' -> req_none m (close_down_conn m i false w')).
+  { intros w' i H d Hd. unfold close_down_conn in Hd. autorewrite with sub in Hd. rewrite Nat.eqb_refl in Hd.
+    apply in_remove_down in Hd. apply H. tauto. }
+  assert (Hdef : forall w', req_none m w' -> req_none m (if Nat.eqb r 0 then w' else close_down_conn m r false w')).
+  { intros w' H. destruct (Nat.eqb r 0); [exact H|apply Hclose; exact H]. }
+  assert (Hset : forall w' d, d_req d = None -> req_none m w' -> req_none m (set_down_entry m d w')).
+  { intros w' d Hd H x Hx. autorewrite with sub in Hx. rewrite Nat.eqb_refl in Hx.
+    apply in_replace_down in Hx. destruct Hx as [->|[[Hx _]|[Hx _]]]; auto. }
+  assert (Hneg : forall w' d r0, d_req d = None -> req_none m w' -> req_none m (negotiate m d r0 w')).
+  { intros w' d r0 Hd H x Hx. destruct (negotiate_downs_req _ _ _ _ _ Hx) as [X|X]; [auto|congruence]. }
+  match goal with |- context [match fst ?s with _ => _ end] => destruct (fst s) as [|i0 sel0] end.
+  - cbn [fst]. apply Hdef. apply Hclose. exact N1.
+  - destruct up as [u|]; [|cbn [fst]; apply Hdef; apply Hclose; exact N1].
+    unfold add_down_conn.
+    destruct (lookup _ (c_up (w_cl w1 m))); [cbn [fst]; apply Hdef; exact N1|].
+    destruct (get_down (uo_id (w_up w1 u)) (c_down (w_cl w1 m))) as [d0|] eqn:Eg.
+    + destruct (get_down (uo_id (w_up w u)) (c_down (w_cl w1 m))) as [d1|] eqn:Eg1; [|cbn [fst]; apply Hdef; exact N1].
+      destruct (replace_tracks d1 _ _) as [changed d'] eqn:Er.
+      destruct (replace_tracks_same _ _ _ _ _ Er) as [R1 [R2 R3]].
+      destruct (get_down_in _ _ _ Eg1) as [Hin1 _].
+      assert (Hd' : d_req d' = None) by (rewrite R3; apply N1; exact Hin1).
+      destruct changed; cbn [fst]; [apply Hneg; auto|apply Hdef; apply Hset; auto].
+    + destruct (uo_closed (w_up w1 u)); [cbn [fst]; apply Hdef; exact N1|].
+      set (dn := mkDown (uo_id (w_up w1 u)) u None [] false false false).
+      set (w2 := upd_cl m (fun c => set_down (c_down c ++ [dn]) c) w1).
+      assert (N2 : req_none m w2).
+      { intros d Hd. unfold w2 in Hd. rewrite upd_cl_same in Hd. simpl in Hd. apply in_app_iff in Hd.
+        destruct Hd as [Hd|[<-|[]]]; [apply N1; exact Hd|reflexivity]. }
+      destruct (get_down (uo_id (w_up w u)) (c_down (w_cl w2 m))) as [d1|] eqn:Eg1; [|cbn [fst]; apply Hdef; exact N2].
+      destruct (replace_tracks d1 _ _) as [changed d'] eqn:Er.
+      destruct (replace_tracks_same _ _ _ _ _ Er) as [R1 [R2 R3]].
+      destruct (get_down_in _ _ _ Eg1) as [Hin1 _].
+      assert (Hd' : d_req d' = None) by (rewrite R3; apply N2; exact Hin1).
+      destruct changed; cbn [fst]; [apply Hneg; auto|apply Hdef; apply Hset; auto].
+Qed.
+
+Lemma req_none_step : forall w o m,
+  Inv w -> ok_op w o -> quiet_op m o -> req_none m w -> req_none m (step w o).
+Proof.
+  intros w o m I Hok Hquiet Hn.
+  pose proof (Inv_step w o I Hok) as I'.
+  destruct (c_dead (w_cl (step w o) m)) eqn:Hdead.
+  { (* the connection ended: nothing is held *)
+    intros d Hd. apply (inv_dead _ I') in Hdead. destruct (inv_nogroup _ I' m Hdead) as [_ [X _]].
+    rewrite X in Hd. destruct Hd. }
+  destruct (actor o) as [c|] eqn:Ha.
+  - destruct (Nat.eqb_spec c m) as [e|ne].
+    + subst c. destruct o as [c' msg|c'|c'|i|x k]; simpl in Ha; inversion Ha; subst c'.
+      * destruct (step_own_msg_noerr w m msg Hdead) as [Es|[Hm [Hd [Hne Es]]]]; [rewrite Es; exact Hn|].
+        rewrite Es.
+        destruct msg as [g user pres op0|g|req|id req|id label replace s|id|id|id ok|dest|dest give];
+          try (simpl in Hquiet; congruence).
+        -- cbv beta iota zeta delta [handle_msg] in *. destruct (c_group (w_cl w m)); cbn [fst snd] in *; [exact Hn|].
+           intros d Hd0. rewrite upd_cl_same in Hd0. apply Hn. exact Hd0.
+        -- cbv beta iota zeta delta [handle_msg] in *. destruct (in_group g (w_cl w m)); cbn [fst snd] in *; [|exact Hn].
+           intros d Hd0. destruct (leave_group_own m w) as [X|X]; [rewrite X in Hd0; destruct Hd0|rewrite X in Hd0; auto].
+        -- cbv beta iota zeta delta [handle_msg] in *. destruct (c_group (w_cl w m)); cbn [fst snd] in *; [|exact Hn].
+           intros d Hd0. autorewrite with sub in Hd0. rewrite upd_cl_same in Hd0. apply Hn. exact Hd0.
+        -- destruct (own_plain_msg w m (MOffer id label replace s) Logic.I Hne) as [_ [D _]].
+           intros d Hd0. rewrite D in Hd0. auto.
+        -- destruct (own_plain_msg w m (MClose id) Logic.I Hne) as [_ [D _]].
+           intros d Hd0. rewrite D in Hd0. auto.
+        -- destruct (own_plain_msg w m (MKick dest) Logic.I Hne) as [_ [D _]].
+           intros d Hd0. rewrite D in Hd0. auto.
+        -- destruct (own_plain_msg w m (MPerm dest give) Logic.I Hne) as [_ [D _]].
+           intros d Hd0. rewrite D in Hd0. auto.
+      * destruct (Nat.ltb m (w_n w) && negb (c_dead (w_cl w m))) eqn:Eg.
+        2:{ rewrite (step_noop w (OpPump m) m eq_refl Eg). exact Hn. }
+        apply andb_prop in Eg. destruct Eg as [E1 E2]. apply Nat.ltb_lt in E1. apply negb_true_iff in E2.
+        destruct (c_queue (w_cl w m)) as [|a q] eqn:Eq.
+        { assert (E : step w (OpPump m) = w).
+          { simpl. rewrite Eq. destruct (Nat.ltb m (w_n w) && negb (c_dead (w_cl w m))); reflexivity. }
+          rewrite E. exact Hn. }
+        destruct (step_own_pump_noerr w m a q Eq E1 E2 Hdead) as [Hne Es]. rewrite Es.
+        set (w0 := upd_cl m (set_queue q) w).
+        assert (N0 : req_none m w0) by (intros d Hd0; unfold w0 in Hd0; rewrite upd_cl_same in Hd0; apply Hn; exact Hd0).
+        destruct a as [g id up ts r|g t id|g give| |].
+        -- cbv beta iota zeta delta [handle_action]. destruct (in_group g (w_cl w0 m)); [|exact N0].
+           apply push_req_none. exact N0.
+        -- destruct (own_plain_action w0 m (AReqConns g t id) ltac:(discriminate)) as [_ [D _]].
+           intros d Hd0. rewrite D in Hd0. auto.
+        -- destruct (own_plain_action w0 m (AChangePerm g give) ltac:(discriminate)) as [_ [D _]].
+           intros d Hd0. rewrite D in Hd0. auto.
+        -- destruct (own_plain_action w0 m APermsChanged ltac:(discriminate)) as [_ [D _]].
+           intros d Hd0. rewrite D in Hd0. auto.
+        -- destruct (own_plain_action w0 m AKick ltac:(discriminate)) as [_ [D _]].
+           intros d Hd0. rewrite D in Hd0. auto.
+      * destruct (Nat.ltb m (w_n w) && negb (c_dead (w_cl w m))) eqn:Eg.
+        -- exfalso. simpl in Hdead. rewrite Eg in Hdead. rewrite error_close_dead in Hdead. discriminate.
+        -- rewrite (step_noop w (OpDisconnect m) m eq_refl Eg). exact Hn.
+    + assert (P : passive m w (step w o)) by (apply step_passive; congruence).
+      destruct P as [Hc _]. destruct (core_fields _ _ Hc) as [_ [_ [_ [_ [_ [_ [D _]]]]]]].
+      intros d Hd0. rewrite D in Hd0. auto.
+  - assert (P : passive m w (step w o)) by (apply step_passive; congruence).
+    destruct P as [Hc _]. destruct (core_fields _ _ Hc) as [_ [_ [_ [_ [_ [_ [D _]]]]]]].
+    intros d Hd0. rewrite D in Hd0. auto.
+Qed.
+
+(* ---- SInv is an invariant *)
+
+Theorem SInv_step : forall w o m,
+  Inv w -> in_range w -> ok_op w o -> quiet_op m o -> req_none m w -> SInv m w -> SInv m (step w o).
+Proof.
+  intros w o m I Hrange Hok Hquiet Hrn S u Hrel.
+  destruct (Nat.lt_ge_cases u (w_nup w)) as [Hu|Hu].
+  - destruct (actor o) as [c|] eqn:Ha.
+    + destruct (Nat.eqb_spec c m) as [e|ne].
+      * subst c. destruct o as [c' msg|c'|c'|i|x k]; simpl in Ha; inversion Ha; subst c'.
+        -- apply sync_own_msg; auto.
+        -- apply sync_own_pump; auto.
+        -- (* the connection ends: m is dead or nothing happened *)
+           destruct (Nat.ltb m (w_n w) && negb (c_dead (w_cl w m))) eqn:Eg.
+           ++ exfalso. destruct Hrel as [_ [_ [_ [_ Hd]]]]. simpl in Hd. rewrite Eg in Hd.
+              rewrite error_close_dead in Hd. discriminate.
+           ++ rewrite (step_noop w (OpDisconnect m) m eq_refl Eg) in *. apply S. exact Hrel.
+      * eapply sync_other_actor; eauto.
+    + destruct o as [c' msg|c'|c'|i|x k]; simpl in Ha; try discriminate.
+      * apply sync_timer; auto.
+      * apply sync_track; auto.
+  - (* a stream created by this step: its delayed push is pending *)
+    right. left. destruct Hrel as [Hu' _]. apply (newobj_step w o I Hok u Hu Hu').
+Qed.
+
+Lemma SInv_init : forall n m, SInv m (init n).
+Proof. intros n m u [Hu _]. simpl in Hu. lia. Qed.
+
+Lemma req_none_init : forall n m, req_none m (init n).
+Proof. intros n m d Hd. simpl in Hd. destruct Hd. Qed.
+
+Lemma sync_run : forall ops w m,
+  Inv w -> in_range w -> req_none m w -> SInv m w ->
+  ok_run w ops -> Forall (quiet_op m) ops ->
+  Inv (run w ops) /\ in_range (run w ops) /\ SInv m (run w ops).
+Proof.
+  induction ops as [|o r IH]; intros w m I R N S Hok Hq; [auto|].
+  simpl in *. destruct Hok as [H1 H2]. inversion Hq. subst.
+  apply IH; auto.
+  - apply Inv_step; auto.
+  - apply in_range_step; auto.
+  - apply req_none_step; auto.
+  - apply SInv_step; auto.
+Qed.
+
+(* offered iff requested, at quiescence *)
+Theorem offered_iff_requested : forall n ops m u,
+  ok_run (init n) ops -> Forall (quiet_op m) ops ->
+  let w := run (init n) ops in
+  quiescentb w = true ->
+  c_dead (w_cl w m) = false ->
+  u < w_nup w -> uo_closed (w_up w u) = false -> uo_owner (w_up w u) <> m ->
+  c_group (w_cl w m) = Some (uo_group (w_up w u)) ->
+  insync w m u.
+Proof.
+  intros n ops m u Hok Hq w Hqu Hd Hu Hc Ho Hg.
+  destruct (sync_run ops (init n) m (Inv_init n) (in_range_init n) (req_none_init n m) (SInv_init n m) Hok Hq)
+    as [I [R S]].
+  apply (sync_quiescent w m u I R S Hqu). repeat split; auto.
 Qed.
